@@ -889,6 +889,9 @@ func (c *ChannelWriter) alterIndex(ctx context.Context, msgBase *commonpb.MsgBas
 	alterIndexMsg.DbName, alterIndexMsg.CollectionName = c.mapDBAndCollectionName(
 		alterIndexMsg.GetDbName(), alterIndexMsg.GetCollectionName())
 	err := c.dataHandler.AlterIndex(ctx, &api.AlterIndexParam{
+		ReplicateParam: api.ReplicateParam{
+			Database: alterIndexMsg.DbName,
+		},
 		AlterIndexRequest: alterIndexMsg.AlterIndexRequest,
 	})
 	if err != nil {
@@ -1029,7 +1032,7 @@ func (c *ChannelWriter) releasePartitions(ctx context.Context, msgBase *commonpb
 	dbName, colName := c.mapDBAndCollectionName(databaseName, collectionName)
 	err := c.dataHandler.ReleasePartitions(ctx, &api.ReleasePartitionsParam{
 		ReplicateParam: api.ReplicateParam{
-			Database: databaseName,
+			Database: dbName,
 		},
 		ReleasePartitionsRequest: &milvuspb.ReleasePartitionsRequest{
 			Base:           msgBase,
